@@ -583,13 +583,17 @@ class Run:
             cov["exhaustive"] = bool(exhaustive)
         cov.update(self.extra)
         cov.update(self.coverage_extra)
+        if "exhaustive" in cov and not isinstance(cov["exhaustive"], bool):
+            cov["exhaustive_domains"] = cov.pop("exhaustive")
         ev = {
             "property_id": self.prop, "tier": self.tier, "seed": self.seed, "level": self.level,
             "coverage": cov, "assumptions": list(assumptions or []) + self.assumptions,
             "wall_s": round(wall, 2), "violations": len(new),
         }
-        os.makedirs(os.path.join(VERIF, "evidence"), exist_ok=True)
-        evp = os.path.join(VERIF, "evidence", self.prop + ".json")
+        # evidence of runs against another tree (VERIF_REPO: mutants, reverts) must not overwrite the evidence of /repo
+        evdir = os.path.join(VERIF, "evidence") if not os.environ.get("VERIF_REPO") else os.path.join(OUT, "evidence-other-tree")
+        os.makedirs(evdir, exist_ok=True)
+        evp = os.path.join(evdir, self.prop + ".json")
         with open(evp + ".tmp", "w") as f:
             json.dump(ev, f, indent=1, default=_jd)
         os.rename(evp + ".tmp", evp)
